@@ -305,6 +305,8 @@ func c19Cases(w *enga.World, state string, thorough bool) []*c19Case {
 		"unlock-unknown":    {append([]byte{goattypes.UnlockRequestType}, make([]byte, 100)...)},
 		"huge-lock":         {append(append([]byte{goattypes.LockRequestType}, ethKey.EthAddr().Bytes()...), append(make([]byte, 20), bytes.Repeat([]byte{0xff}, 32)...)...)},
 		"two-gas":           {append([]byte{goattypes.GasRequestType}, make([]byte, 80)...)},
+		// a well-formed lock of a token that is not listed, to the node's own (existing, active) validator
+		"lock-unlisted-token": {append(append([]byte{goattypes.LockRequestType}, ethKey.EthAddr().Bytes()...), append(bytes.Repeat([]byte{0x77}, 20), append(make([]byte, 31), 5)...)...)},
 		"rbf-unknown-id":    {append([]byte{goattypes.ReplaceByFeeRequestType}, make([]byte, 16)...)},
 		"cancel-unknown-id": {append([]byte{goattypes.Cancel1RequestType}, make([]byte, 8)...)},
 	}
